@@ -126,7 +126,8 @@ def backward_slice(v, limit=2000, through_loads=False, phi_control=True):
                 continue
             stack.extend(x.ops)
             if x.op == "phi" and phi_control:
-                for pb in x.x.get("inc", []):
+                for pb in x.x.get("inc", []) + [x.bb]:
+                    # x.bb: for a loop-header phi the header's own exit test decides which value is seen outside
                     if pb.insts and pb.term.op in ("br", "switch") and pb.term.ops:
                         stack.append(pb.term.ops[0])
             for el in x.x.get("gep") or []:
